@@ -372,6 +372,48 @@ func SolveAll(all []*Obligation, solv *Solvers) {
 				}
 				return ks[a] > ks[b]
 			})
+			// round-robin over the runs (rank, case) the probes come from, so that the first few probes
+			// of a clause already cover every case of a proof by cases
+			group := func(k int) string {
+				o := todo[pi[k]]
+				g := fmt.Sprint(o.Late, "|", o.Rank)
+				if strings.HasPrefix(o.Path, "case:") {
+					if i := strings.Index(o.Path, ">"); i > 0 {
+						g += "|" + o.Path[:i]
+					}
+				}
+				return g
+			}
+			var gorder []string
+			buckets := map[string][]int{}
+			for _, k := range ks {
+				g := group(k)
+				if _, ok := buckets[g]; !ok {
+					gorder = append(gorder, g)
+				}
+				buckets[g] = append(buckets[g], k)
+			}
+			if len(gorder) > 1 {
+				var early, late []int
+				for i := 0; ; i++ {
+					any := false
+					for _, g := range gorder {
+						if i < len(buckets[g]) {
+							any = true
+							k := buckets[g][i]
+							if todo[pi[k]].Late {
+								late = append(late, k)
+							} else {
+								early = append(early, k)
+							}
+						}
+					}
+					if !any {
+						break
+					}
+				}
+				copy(ks, append(early, late...))
+			}
 		}
 		settled := map[string]bool{}
 		pos := map[string]int{}
